@@ -56,8 +56,14 @@ def run_c07(ctx):
 def run_c08(ctx):
     n = _sizes(ctx['tier'], 30000, 800000)
     tot = vmstream.vm_stream(ctx['seed'] + 9, n, 'default', ('C08',), ctx['nproc'])
-    return _vm_result(tot, 'C08', VM_RULE + ' Direct oracle: str-keyed cache entries (except the control flag '
-                      "'returned') compared before/after run_script with no plugin installed.")
+    res = _vm_result(tot, 'C08', VM_RULE + ' Direct oracle: str-keyed cache entries (except the control flag '
+                     "'returned') compared (type and repr, so in-place changes of mutable values show) before/after "
+                     'run_script with no plugin installed; plus directed aliasing probes: every opcode on '
+                     '(OP_GET_VALUE result, other operand) for bytes/bytearray/list/str/int values.')
+    pv, runs = vmstream.c08_alias_probes()
+    res['violations'].extend(pv)
+    res['coverage']['alias_probe_runs'] = runs
+    return res
 
 
 # ------------------------------------------------------------------------------------------- C10
@@ -265,10 +271,20 @@ def run_c09(ctx):
 
 def run_c20(ctx):
     tot = streams2.run_c20(ctx['seed'], ctx['tier'], ctx['nproc'])
-    return _s2_result(tot, 'every unassigned code (%d) x count bytes (%s) x stack depths; run_script implementation vs model; direct oracle: '
-                      'negative count -> ScriptExecutionError, count > depth -> IndexError, else exactly count items removed and nothing else; '
-                      'decompile = "NOPn d<signed>" and recompiles to the same bytes.' % (tot['codes'], 'all 256' if ctx['tier'] == 'thorough' else '12 boundary values'),
-                      ['soft-fork simulation theorem: see DESIGN (partial)'], exhaustive=tot['exhaustive'])
+    res = _s2_result(tot, 'every unassigned code (%d) x count bytes (%s) x stack depths; run_script implementation vs model; direct oracle: '
+                     'negative count -> ScriptExecutionError, count > depth -> IndexError, else exactly count items removed and nothing else; '
+                     'decompile = "NOPn d<signed>" and recompiles to the same bytes.  Soft-fork stream: generated scripts/auth '
+                     'script lists with fork-op occurrences at every nesting depth (also inside TRY) run on the implementation '
+                     'with tools.add_soft_fork installed and without; upgraded run == SoftFork.run_script_f (extracted); '
+                     'direct oracle = theorem C20_soft_fork_simulation on the code: fork op never raised ==> both runs identical.'
+                     % (tot['codes'], 'all 256' if ctx['tier'] == 'thorough' else '12 boundary values'),
+                     ['the fork op of model/SoftFork.v has NOP\'s operand and pops and afterwards may only raise (the documented '
+                      'soft-fork discipline); a fork op that does anything else is outside the theorem',
+                      'scripts whose TRY swallows a fork-op raise are related by nothing (the property\'s own exception); '
+                      'the premise of the theorem is semantic (no raise recorded), not syntactic (no TRY)'],
+                     exhaustive=tot['exhaustive'])
+    res['coverage']['fork_stream'] = tot.get('fork_stream')
+    return res
 
 
 def run_c16(ctx):
